@@ -50,14 +50,14 @@ WLog(t)     == IF "wt" \in DOMAIN t THEN t.wt ELSE <<>>
 HasNextW(w) == w <= Len(WLog(Trace[l])) /\ wpos[w] < Len(WLog(Trace[l])[w])
 WEv(w)      == WLog(Trace[l])[w][wpos[w] + 1]
 
-StartOf(t) == /\ Backend = t.be /\ Secondary = "none"
+StartOf(t) == /\ Backend = t.be /\ Secondary = "none" /\ Limit = t.limit
               /\ cell = [val |-> Nil, ver |-> 0] /\ ctr = 1
               /\ cl = [c \in Clients |-> IdleRec(0)]
               /\ applied = <<>>
               /\ res = [c \in Clients |-> [k \in 1..OpsPer |-> ""]]
               /\ mirror = Nil
               /\ wt = [w \in Watchers |-> [on |-> FALSE, from |-> 0, last |-> 0]]
-              /\ hist = <<[a |-> "setup", be |-> t.be, sec |-> "none", limit |-> Limit]>>
+              /\ hist = <<[a |-> "setup", be |-> t.be, sec |-> "none", limit |-> t.limit]>>
 
 TraceInit == l = 1 /\ pos = [c \in Clients |-> 0] /\ wpos = [w \in Watchers |-> 0] /\ StartOf(Trace[1])
 
@@ -103,14 +103,14 @@ NextLine ==
     /\ PrintT(<<"line-accepted", l>>)
     /\ l' = l + 1 /\ pos' = [c \in Clients |-> 0] /\ wpos' = [w \in Watchers |-> 0]
     /\ IF l < Len(Trace)
-       THEN /\ Backend' = Trace[l + 1].be /\ Secondary' = "none"
+       THEN /\ Backend' = Trace[l + 1].be /\ Secondary' = "none" /\ Limit' = Trace[l + 1].limit
             /\ cell' = [val |-> Nil, ver |-> 0] /\ ctr' = 1
             /\ cl' = [c \in Clients |-> IdleRec(0)]
             /\ applied' = <<>>
             /\ res' = [c \in Clients |-> [k \in 1..OpsPer |-> ""]]
             /\ mirror' = Nil
             /\ wt' = [w \in Watchers |-> [on |-> FALSE, from |-> 0, last |-> 0]]
-            /\ hist' = <<[a |-> "setup", be |-> Trace[l + 1].be, sec |-> "none", limit |-> Limit]>>
+            /\ hist' = <<[a |-> "setup", be |-> Trace[l + 1].be, sec |-> "none", limit |-> Trace[l + 1].limit]>>
        ELSE UNCHANGED vars
 
 (* One successful put: its result must fit under the lowest logged value above the current one; *)
